@@ -21,13 +21,17 @@ import (
 // execution of the runner blocks on a harness gate and is finished with the
 // ttl the case says.
 
-// LStep kinds: 0 call(key), 1 release(idx-th parked caller), 2 finish(key, ttl ms), 3 advance(adv ms).
+// LStep kinds: 0 call(key), 1 release(idx-th parked caller), 2 finish(key, ttl ms), 3 advance(adv ms),
+// 4 burst(key, n, ttl): n callers call Run(key) at the same moment, nobody parked, runner not gated
+// (the Go scheduler picks the interleaving).
 type LStep struct {
 	K   int `json:"k"`
 	Key int `json:"key,omitempty"`
 	Idx int `json:"idx,omitempty"`
 	TTL int `json:"ttl,omitempty"`
 	Adv int `json:"adv,omitempty"`
+	N   int `json:"n,omitempty"`
+	R   int `json:"r,omitempty"` // burst rounds; before every round but the first the clock moves past the ttl
 }
 
 type LCase struct {
@@ -47,7 +51,7 @@ func genL(t *rapid.T) LCase {
 	advs := []int{500, 1000, 2000, 30000 + 1000, gcMs + 1000, 2*gcMs + 1000, 6 * gcMs}
 	n := rapid.IntRange(3, 28).Draw(t, "nsteps")
 	for i := 0; i < n; i++ {
-		s := LStep{K: rapid.SampledFrom([]int{0, 0, 0, 1, 1, 1, 2, 2, 3, 3}).Draw(t, "k")}
+		s := LStep{K: rapid.SampledFrom([]int{0, 0, 0, 0, 1, 1, 1, 1, 2, 2, 2, 3, 3, 3, 4}).Draw(t, "k")}
 		switch s.K {
 		case 0:
 			s.Key = rapid.IntRange(0, c.Keys-1).Draw(t, "key")
@@ -58,6 +62,11 @@ func genL(t *rapid.T) LCase {
 			s.TTL = rapid.SampledFrom(ttls).Draw(t, "ttl")
 		case 3:
 			s.Adv = rapid.SampledFrom(advs).Draw(t, "adv")
+		case 4:
+			s.Key = rapid.IntRange(0, c.Keys-1).Draw(t, "key")
+			s.N = rapid.IntRange(2, 6).Draw(t, "n")
+			s.TTL = rapid.SampledFrom(ttls).Draw(t, "ttl")
+			s.R = rapid.IntRange(1, 6).Draw(t, "r")
 		}
 		c.Steps = append(c.Steps, s)
 	}
@@ -115,6 +124,9 @@ func (r *lRunner) Run(input interface{}) (interface{}, time.Duration) {
 	}
 	e := &lEntry{key: key, release: make(chan lOut, 1)}
 	e.n = atomic.AddInt32(&h.inflight[key], 1)
+	if a, ok := h.auto.Load().(*lOut); ok && a != nil {
+		e.release <- *a
+	}
 	h.entered <- e
 	o := <-e.release
 	atomic.AddInt32(&h.inflight[key], -1)
@@ -131,6 +143,8 @@ type lH struct {
 	results  chan lResult
 	inflight [4]int32
 	tearing  int32
+	pass     int32        // scheduling point lets callers through (burst)
+	auto     atomic.Value // *lOut: runner returns this at once (burst)
 	wg       sync.WaitGroup
 	entries  []*lEntry
 
@@ -146,12 +160,39 @@ type lH struct {
 }
 
 func (h *lH) yield(point string, input interface{}) {
-	if atomic.LoadInt32(&h.tearing) != 0 {
+	if atomic.LoadInt32(&h.tearing) != 0 || atomic.LoadInt32(&h.pass) != 0 {
 		return
 	}
 	g := make(chan struct{})
 	h.arrivals <- g
 	<-g
+}
+
+// next returns the next arrival (only if wanted), result or entry; kind is
+// "deadlock" or "timeout" if none can / did come.
+func (h *lH) next(wantArrival bool) (g chan struct{}, r *lResult, e *lEntry, kind string) {
+	arr := h.arrivals
+	if !wantArrival {
+		arr = nil
+	}
+	var d *dog
+	for {
+		select {
+		case g := <-arr:
+			return g, nil, nil, ""
+		case rr := <-h.results:
+			return nil, &rr, nil, ""
+		case e := <-h.entered:
+			return nil, nil, e, ""
+		case <-time.After(dogTick):
+			if d == nil {
+				d = newDog()
+			}
+			if k := d.tick(); k != "" {
+				return nil, nil, nil, k
+			}
+		}
+	}
 }
 
 func (h *lH) open(c *lCaller) {
@@ -205,17 +246,19 @@ func (h *lH) call(key int) *pbt.Verdict {
 		h.results <- lResult{c, out}
 	}()
 	<-ready
-	select {
-	case g := <-h.arrivals:
-		c.gate = g
-	case r := <-h.results:
+	g, r, e, kind := h.next(true)
+	switch {
+	case kind != "":
+		v := stall(kind, "Limiter: Run did not get past the task lookup", c.gid)
+		return &v
+	case e != nil:
+		return h.unexpectedEntry(e, "its caller has not been released from the scheduling point yet")
+	case r != nil:
 		// Run returned without passing the scheduling point: only possible if the
 		// hook is missing from the build.
 		return &pbt.Verdict{Violation: fmt.Sprintf("harness: Limiter.Run returned %v without reaching the limiter.afterLookup scheduling point (hook missing?)", r.out), NonTrivial: true}
-	case <-time.After(stallLimit):
-		v := stall("Limiter: Run did not get past the task lookup", c.gid)
-		return &v
 	}
+	c.gate = g
 	h.parked = append(h.parked, c)
 	return nil
 }
@@ -285,31 +328,35 @@ func (h *lH) release(idx int) *pbt.Verdict {
 		return nil
 	case k.has && h.now < k.exp:
 		h.open(c)
-		select {
-		case r := <-h.results:
-			if r.c != c {
-				v := pbt.Fail("harness: result of caller %d while waiting for caller %d", r.c.id, c.id)
-				return &v
-			}
-			if r.out != interface{}(k.out) {
-				v := pbt.Fail("Limiter: caller for input k%d got %v, want the unexpired output %q of the last execution", c.key, r.out, k.out)
-				return &v
-			}
-			c.state = 3
-			h.cls["cached-output-returned"] = true
-			h.dedups++
-			return nil
-		case e := <-h.entered:
+		_, r, e, kind := h.next(false)
+		switch {
+		case kind != "":
+			v := stall(kind, "Limiter: Run did not return the cached output", c.gid)
+			return &v
+		case e != nil:
 			return h.unexpectedEntry(e, h.keyWhy(k))
-		case <-time.After(stallLimit):
-			v := stall("Limiter: Run did not return the cached output", c.gid)
+		}
+		if r.c != c {
+			v := pbt.Fail("harness: result of caller %d while waiting for caller %d", r.c.id, c.id)
 			return &v
 		}
+		if r.out != interface{}(k.out) {
+			v := pbt.Fail("Limiter: caller for input k%d got %v, want the unexpired output %q of the last execution", c.key, r.out, k.out)
+			return &v
+		}
+		c.state = 3
+		h.cls["cached-output-returned"] = true
+		h.dedups++
+		return nil
 	default:
 		either := k.has && h.now == k.exp
 		h.open(c)
-		select {
-		case e := <-h.entered:
+		_, r, e, kind := h.next(false)
+		switch {
+		case kind != "":
+			v := stall(kind, "Limiter: Run neither executed the task nor returned", c.gid)
+			return &v
+		case e != nil:
 			if v := h.checkEntry(e); v != nil {
 				return v
 			}
@@ -324,22 +371,18 @@ func (h *lH) release(idx int) *pbt.Verdict {
 				h.cls["rerun-after-ttl"] = true
 			}
 			return nil
-		case r := <-h.results:
-			if either && r.c == c && r.out == interface{}(k.out) {
-				c.state = 3
-				h.cls["ttl-boundary"] = true
-				return nil
-			}
-			if !k.has {
-				v := pbt.Fail("Limiter: caller for input k%d returned %v without any execution of the task having produced an output", r.c.key, r.out)
-				return &v
-			}
-			v := pbt.Fail("Limiter: caller for input k%d returned %v although the last output expired %d ms ago and no execution is in flight", r.c.key, r.out, h.now-k.exp)
-			return &v
-		case <-time.After(stallLimit):
-			v := stall("Limiter: Run neither executed the task nor returned", c.gid)
+		}
+		if either && r.c == c && r.out == interface{}(k.out) {
+			c.state = 3
+			h.cls["ttl-boundary"] = true
+			return nil
+		}
+		if !k.has {
+			v := pbt.Fail("Limiter: caller for input k%d returned %v without any execution of the task having produced an output", r.c.key, r.out)
 			return &v
 		}
+		v := pbt.Fail("Limiter: caller for input k%d returned %v although the last output expired %d ms ago and no execution is in flight", r.c.key, r.out, h.now-k.exp)
+		return &v
 	}
 }
 
@@ -358,34 +401,154 @@ func (h *lH) finish(key, ttl int) *pbt.Verdict {
 		pending[c] = true
 	}
 	for len(pending) > 0 {
-		select {
-		case r := <-h.results:
-			if !pending[r.c] {
-				v := pbt.Fail("harness: unexpected result of caller %d", r.c.id)
-				return &v
-			}
-			if r.out != interface{}(out) {
-				v := pbt.Fail("Limiter: caller for input k%d that ran or waited for execution %q got %v", key, out, r.out)
-				return &v
-			}
-			r.c.state = 3
-			delete(pending, r.c)
-		case e := <-h.entered:
-			return h.unexpectedEntry(e, "its callers were waiting for an execution that has just finished with a fresh output")
-		case <-time.After(stallLimit):
+		_, r, e, kind := h.next(false)
+		switch {
+		case kind != "":
 			var ids []int64
 			for c := range pending {
 				ids = append(ids, c.gid)
 			}
-			v := stall(fmt.Sprintf("Limiter: %d caller(s) of input k%d did not return after the execution they ran or waited for finished", len(pending), key), ids...)
+			v := stall(kind, fmt.Sprintf("Limiter: %d caller(s) of input k%d did not return after the execution they ran or waited for finished", len(pending), key), ids...)
+			return &v
+		case e != nil:
+			return h.unexpectedEntry(e, "its callers were waiting for an execution that has just finished with a fresh output")
+		}
+		if !pending[r.c] {
+			v := pbt.Fail("harness: unexpected result of caller %d", r.c.id)
 			return &v
 		}
+		if r.out != interface{}(out) {
+			v := pbt.Fail("Limiter: caller for input k%d that ran or waited for execution %q got %v", key, out, r.out)
+			return &v
+		}
+		r.c.state = 3
+		delete(pending, r.c)
 	}
 	if len(run.callers) > 1 {
 		h.cls["waiters-got-run-output"] = true
 	}
 	k.run = nil
 	k.has, k.out, k.exp = true, out, h.now+int64(ttl)
+	return nil
+}
+
+// burst lets n callers race through Run(key) with an ungated runner and an open
+// scheduling point. Whatever the interleaving, at most one execution may happen,
+// none if an unexpired output exists, and everybody gets the valid output.
+func (h *lH) burst(key, n, ttl int) *pbt.Verdict {
+	k := h.keys[key]
+	if k.run != nil || n < 2 || n > 8 || (k.has && h.now == k.exp) {
+		h.cls["skip-burst"] = true
+		return nil
+	}
+	if h.now-h.lastGC > int64(dedup.TaskGCInterval/time.Millisecond) {
+		h.lastGC = h.now
+		h.cls["gc-ran-in-burst"] = true
+	}
+	cachedValid := k.has && h.now < k.exp
+	h.seq++
+	out := fmt.Sprintf("out-%d", h.seq)
+	h.auto.Store(&lOut{out, ms(ttl)})
+	atomic.StoreInt32(&h.pass, 1)
+	defer func() {
+		atomic.StoreInt32(&h.pass, 0)
+		h.auto.Store((*lOut)(nil))
+	}()
+	barrier := &spinBarrier{}
+	set := map[*lCaller]bool{}
+	var ids []int64
+	for i := 0; i < n; i++ {
+		c := &lCaller{id: 1000 + i, key: key}
+		ready := make(chan struct{})
+		h.wg.Add(1)
+		go func() {
+			defer h.wg.Done()
+			c.gid = gid()
+			close(ready)
+			barrier.wait()
+			var o interface{}
+			func() {
+				defer func() {
+					if r := recover(); r != nil {
+						o = fmt.Sprintf("c29: Limiter.Run panicked: %v", r)
+					}
+				}()
+				o = h.lim.Run(rcName(key))
+			}()
+			h.results <- lResult{c, o}
+		}()
+		<-ready
+		set[c] = true
+		ids = append(ids, c.gid)
+	}
+	barrier.open()
+	ran := 0
+	want := interface{}(out)
+	if cachedValid {
+		want = k.out
+	}
+	onEntry := func(e *lEntry) *pbt.Verdict {
+		if v := h.checkEntry(e); v != nil {
+			return v
+		}
+		if e.key != key {
+			return h.unexpectedEntry(e, h.keyWhy(h.keys[e.key]))
+		}
+		ran++
+		return nil
+	}
+	for len(set) > 0 {
+		_, r, e, kind := h.next(false)
+		switch {
+		case kind != "":
+			v := stall(kind, fmt.Sprintf("Limiter: concurrent callers of input k%d did not return", key), ids...)
+			return &v
+		case e != nil:
+			if v := onEntry(e); v != nil {
+				return v
+			}
+			continue
+		}
+		if !set[r.c] {
+			v := pbt.Fail("Limiter: caller %d for input k%d returned %v at a point where it had to be blocked", r.c.id, r.c.key, r.out)
+			return &v
+		}
+		if r.out != want {
+			v := pbt.Fail("Limiter: one of %d concurrent callers for input k%d got %v, want %v", n, key, r.out, want)
+			return &v
+		}
+		delete(set, r.c)
+	}
+	for {
+		select {
+		case e := <-h.entered:
+			if v := onEntry(e); v != nil {
+				return v
+			}
+			continue
+		default:
+		}
+		break
+	}
+	switch {
+	case cachedValid && ran > 0:
+		v := pbt.Fail("Limiter: the task for input k%d was executed although the output of the previous execution is valid for another %d ms (%d concurrent callers)", key, k.exp-h.now, n)
+		return &v
+	case ran > 1 && ttl > 0: // with ttl 0 the first output expires at the instant it is produced (boundary)
+		v := pbt.Fail("Limiter: the task for input k%d was executed %d times for %d concurrent callers although the first output was still valid", key, ran, n)
+		return &v
+	case !cachedValid && ran == 0:
+		v := pbt.Fail("Limiter: %d concurrent callers for input k%d returned without any execution although no valid output existed", n, key)
+		return &v
+	}
+	if ran >= 1 {
+		k.has, k.out, k.exp = true, out, h.now+int64(ttl)
+		h.runs++
+		h.cls["burst-one-run"] = true
+	} else {
+		h.cls["burst-served-from-cache"] = true
+	}
+	h.dedups += n - ran
 	return nil
 }
 
@@ -490,6 +653,22 @@ func runL(c LCase) pbt.Verdict {
 				continue
 			}
 			v = h.advance(s.Adv)
+		case 4:
+			if s.Key < 0 || s.Key >= c.Keys || s.TTL < 0 {
+				continue
+			}
+			for r := 0; r < s.R && r < 6 && v == nil; r++ {
+				if r > 0 {
+					v = h.advance(s.TTL + 1)
+					if v == nil {
+						v = h.settle()
+					}
+					if v != nil {
+						break
+					}
+				}
+				v = h.burst(s.Key, s.N, s.TTL)
+			}
 		}
 		if v == nil {
 			v = h.settle()
